@@ -63,7 +63,18 @@ pub assume_specification<T, A: core::alloc::Allocator>[ std::collections::VecDeq
 pub assume_specification<T: Clone>[ <[T] as std::borrow::ToOwned>::to_owned ](s: &[T]) -> (r: Vec<T>)
     ensures r@.len() == s@.len(), forall|i: int| 0 <= i < s@.len() ==> cloned::<T>(s@[i], #[trigger] r@[i]);
 pub assume_specification<T: Clone>[ <[T]>::to_vec ](s: &[T]) -> (r: Vec<T>)
-    ensures r@.len() == s@.len(), forall|i: int| 0 <= i < s@.len() ==> cloned::<T>(s@[i], #[trigger] r@[i]);
+    ensures r@.len() == s@.len(), forall|i: int| 0 <= i < s@.len() ==> cloned::<T>(s@[i], #[trigger] r@[i]), copy_of(s@, r@);
+/// `r` is an element-wise clone of `s` (named so that the byte case can be stated without naming the vector)
+pub open spec fn copy_of<T: Clone>(s: Seq<T>, r: Seq<T>) -> bool {
+    r.len() == s.len() && forall|i: int| 0 <= i < s.len() ==> cloned::<T>(s[i], #[trigger] r[i])
+}
+/// a clone of a byte string is that byte string (u8: Copy)
+pub proof fn lemma_copy_of_bytes()
+    ensures forall|s: Seq<u8>, r: Seq<u8>| #[trigger] copy_of(s, r) ==> r == s
+{
+    axiom_cloned_u8();
+    assert forall|s: Seq<u8>, r: Seq<u8>| #[trigger] copy_of(s, r) implies r == s by { assert(r =~= s); }
+}
 
 /// cloning a byte gives the same byte (u8: Copy)
 pub axiom fn axiom_cloned_u8()
